@@ -28,6 +28,9 @@ WHAT = {
  'generic NamedTuple': ("C16", "class NT(NamedTuple, Generic[T]): NT[int] handled by the iterable provider: {'x': 1, 'y': [1]} rejected, [1, [2]] -> bare TypeError (case_NT_int)"),
  'name sanitizer kept': ("C19", "model named 'A\u00b2' / 'A\u2460' -> SyntaxError in the generated loader; 'A\u00aa' -> NameError in the generated converter (names_build; K-name/1 sanitizer_alphabet)"),
  'zero denominator': ("C04", "Fraction strict and lax loaders: '0/0' / '1/0' -> ZeroDivisionError escaped (E2 kernel kexc_fraction_*: datum '0/0')"),
+ 'leaked OSError': ("C04", "datetime_by_timestamp / date_by_timestamp: 1e18 -> OSError escaped (l1_datetime_ts_*_sel tag=3 c0=9)"),
+ 'beyond the regex engine': ("C04", "re.Pattern loader: 'a{4294967296}' -> OverflowError escaped (probe; same exception edge class as K-exc)"),
+ 'bare constructors': ("C04", "UUID / IPv4Address / IPv6Address / IPv4Network / IPv4Interface / Path loaders were the raw constructors: ValueError, AddressValueError, NetmaskValueError, TypeError, AttributeError escaped (l1_UUID_strict_sel tag=5 ...)"),
 }
 WHAT.update(json.load(open('/verif/tools/fixed_extra.json')) if __import__('os').path.exists('/verif/tools/fixed_extra.json') else {})
 log = subprocess.run(["git", "-C", "/repo", "log", "--format=%h %s"], capture_output=True, text=True).stdout.splitlines()
